@@ -28,6 +28,10 @@ CHECKS = {
    technique='SMT (z3): Axis lookup arithmetic on symbolic integers; chain rewrites validated as equal affine maps on a symbolic point (translation validation of canonical/uppermost/promote); small structured lookups enumerated',
    text='Axis.map/unmap round trip and exact acceptance set for all i, j, mod, index (unbounded).  For every chain of child/edge transforms of line, square, triangle, cube, tetrahedron, prism up to length 3 (4 thorough; 3-D length 2 in quick) the canonical, uppermost and promoted forms denote the same affine map for ALL points and keep from/to dimensions.  index_with_tail(transforms[i]+tail)=(i,tail) is enumerated on small structured meshes (auxiliary, labelled).',
    note='Declined: locate() (floating-point Newton with tolerance), lookup through interned object identity for arbitrary construction routes, f_index/f_coords/opposite at symbolic points (planned with the function-level harness).'),
+ 'C02': dict(level='translation_validation', design='4/C02',
+   technique='symbolic execution of the real generated Python function (all compile configurations) on z3 terms inside NumPy object arrays vs an independent node-wise denotational interpreter; per-element SMT equivalence; replay on real NumPy',
+   text='For every program / nested tuple of the bounded family and the compile configurations (_simplify x _optimize x cache_const_intermediates x stats; all 16 on the corpus and on shared-subterm tuples, default + 2 sampled per program in quick, all in thorough) the generated function (run twice when caching) returns the structure, shapes, kinds and - for ALL argument values - the values the expression denotes according to an independent interpreter.',
+   note='Trusted: z3, SArray model of NumPy, the interpreter (symx/interp.py).  Outside: the text of log/statistics output, scripts generated under maxprocs>1 and real multi-process runs (C16), programs outside the family, NaN/Inf, int64 overflow.'),
 }
 
 NOT_APPLICABLE = {
